@@ -12,6 +12,8 @@ type Function struct {
 	Name      string
 	Value     func(...Object) Object
 	ForUpdate bool
+	// Arity is the number of arguments the function takes
+	Arity int
 }
 
 // Inspect returns the readable value of the object
@@ -33,35 +35,43 @@ var (
 	functions = map[string]*Function{
 		"attribute_exists": &Function{
 			Name:  "attribute_exists",
+			Arity: 1,
 			Value: attributeExists,
 		},
 		"attribute_not_exists": &Function{
 			Name:  "attribute_not_exists",
+			Arity: 1,
 			Value: attributeNotExists,
 		},
 		"attribute_type": &Function{
 			Name:  "attribute_type",
+			Arity: 2,
 			Value: attributeType,
 		},
 		"begins_with": &Function{
 			Name:  "begins_with",
+			Arity: 2,
 			Value: beginsWith,
 		},
 		"contains": &Function{
 			Name:  "contains",
+			Arity: 2,
 			Value: contains,
 		},
 		"size": &Function{
 			Name:  "size",
+			Arity: 1,
 			Value: objectSize,
 		},
 		"if_not_exists": &Function{
 			Name:      "if_not_exists",
+			Arity:     2,
 			Value:     ifNotExists,
 			ForUpdate: true,
 		},
 		"list_append": &Function{
 			Name:      "list_append",
+			Arity:     2,
 			Value:     listAppend,
 			ForUpdate: true,
 		},
